@@ -95,7 +95,7 @@ func (w *World) inviteKeyFor(id string) crypto.PrivKey {
 // invite signatures when the invite key is known), so that it reaches the rules under test.
 func (w *World) BuildContent(author int, fc FContent) (*aclrecordproto.AclContentValue, error) {
 	st := w.refState()
-	a := w.acc(author)
+	a := w.ResolveAuthor(author)
 	t := w.acc(fc.Target)
 	t2 := w.acc(fc.T2)
 	pubProto := func(i int) []byte {
@@ -155,7 +155,19 @@ func (w *World) BuildContent(author int, fc FContent) (*aclrecordproto.AclConten
 				return b
 			}
 		}
+		if _, who := w.historicRequests(0); who[id] != nil {
+			return who[id]
+		}
 		return pubProto(t)
+	}
+	// variants >= 14 name any request record the log ever held (settled ones included), in log
+	// order, so that ref -1 is the most recent one
+	pickRequest := func(kind int) string {
+		if fc.Variant >= 14 {
+			ids, _ := w.historicRequests(kind)
+			return pickStr(ids, fc.Ref, "no-such-request")
+		}
+		return pickStr(requestIds(kind), fc.Ref, "no-such-request")
 	}
 	switch fc.Kind {
 	case "perm_change":
@@ -227,7 +239,7 @@ func (w *World) BuildContent(author int, fc FContent) (*aclrecordproto.AclConten
 			Identity: pubProto(who), InviteRecordId: id, InviteIdentitySignature: sig, Metadata: meta(),
 			EncryptedReadKey: encKeyFor(w.Keys[who].SignKey.GetPublic()), Permissions: pv(fc.Perm)}}}, nil
 	case "request_accept":
-		id := pickStr(requestIds(fc.Variant%3), fc.Ref, "no-such-request")
+		id := pickRequest(fc.Variant % 3)
 		ident := requester(id)
 		if fc.Variant%7 == 6 {
 			ident = pubProto(t)
@@ -239,10 +251,10 @@ func (w *World) BuildContent(author int, fc FContent) (*aclrecordproto.AclConten
 		return &aclrecordproto.AclContentValue{Value: &aclrecordproto.AclContentValue_RequestAccept{RequestAccept: &aclrecordproto.AclAccountRequestAccept{
 			Identity: ident, RequestRecordId: id, EncryptedReadKey: encKeyFor(pk), Permissions: pv(fc.Perm)}}}, nil
 	case "request_decline":
-		id := pickStr(requestIds(fc.Variant%3), fc.Ref, "no-such-request")
+		id := pickRequest(fc.Variant % 3)
 		return &aclrecordproto.AclContentValue{Value: &aclrecordproto.AclContentValue_RequestDecline{RequestDecline: &aclrecordproto.AclAccountRequestDecline{RequestRecordId: id}}}, nil
 	case "request_cancel":
-		id := pickStr(requestIds(0), fc.Ref, "no-such-request")
+		id := pickRequest(0)
 		return &aclrecordproto.AclContentValue{Value: &aclrecordproto.AclContentValue_RequestCancel{RequestCancel: &aclrecordproto.AclAccountRequestCancel{RecordId: id}}}, nil
 	case "account_remove":
 		targets := []int{t}
@@ -333,7 +345,61 @@ func (w *World) buildReadKeyChange(st *list.AclState, removed map[string]bool, s
 
 // ApplyForge builds, signs and submits a forged record on top of the current head.
 // It returns whether every list accepted it and the first list's error otherwise.
+// Symbolic authors for Forge.Author (resolved against the reference state when the record is
+// assembled): the current owner, and the first non-owner admin (the owner if there is none).
+const (
+	AuthorOwner = -1000
+	AuthorAdmin = -1001
+)
+
+// ResolveAuthor maps a Forge author (index modulo N, or a symbolic author) to an account index.
+func (w *World) ResolveAuthor(author int) int {
+	if author != AuthorOwner && author != AuthorAdmin {
+		return w.acc(author)
+	}
+	st := w.refState()
+	owner := 0
+	if pk, err := st.OwnerPubKey(); err == nil {
+		for i := 0; i < w.N; i++ {
+			if w.Keys[i].SignKey.GetPublic().Equals(pk) {
+				owner = i
+			}
+		}
+	}
+	if author == AuthorAdmin {
+		for i := 0; i < w.N; i++ {
+			if i != owner && st.Permissions(w.Keys[i].SignKey.GetPublic()).CanManageAccounts() {
+				return i
+			}
+		}
+	}
+	return owner
+}
+
+// historicRequests lists every request record the log ever held (pending, settled or
+// cancelled), in log order: anybody who reads the log can name them.
+func (w *World) historicRequests(kind int) (ids []string, who map[string][]byte) { // 0 any, 1 join, 2 remove
+	who = map[string][]byte{}
+	for _, rec := range w.Lists[w.Ref()].Records() {
+		data, ok := rec.Model.(*aclrecordproto.AclData)
+		if !ok || data == nil {
+			continue
+		}
+		for _, c := range data.AclContent {
+			if (c.GetRequestJoin() != nil && kind != 2) || (c.GetAccountRequestRemove() != nil && kind != 1) {
+				ids = append(ids, rec.Id)
+				if b, err := rec.Identity.Marshall(); err == nil {
+					who[rec.Id] = b
+				}
+				break
+			}
+		}
+	}
+	return
+}
+
 func (w *World) ApplyForge(f Forge) (accepted bool, rejectErr error, err error) {
+	f.Author = w.ResolveAuthor(f.Author)
 	var contents []*aclrecordproto.AclContentValue
 	w.pendingInvite = nil
 	var newInvites []*InviteInfo
